@@ -1,6 +1,7 @@
 import NmVerif.Functional
 import NmVerif.Lemmas.Functional
 import NmVerif.Lemmas.Graph
+import NmVerif.Lemmas.FunctionalMaybe
 /-
   C14 — Functors, currying, composition and extraction are equivalent to direct views.
   Only property statements (+ non-vacuity examples, counterexamples of known findings) live here.
@@ -213,6 +214,28 @@ theorem compile_preserves_params (v : View A V) :
   rw [h, List.map_map]
   rfl
 
+/-! ### operands that are `nmtools_maybe<view>` (the result of a functor whose view validates its arguments at run time) -/
+
+/-- the maybe branch of a view function applied to operands that all have a value is the view function applied to the unwrapped
+    operands WITH THE SAME ATTRIBUTES, wrapped again (what seeded change C14-4 breaks for view::unary_ufunc) -/
+theorem maybe_view_forwards_attrs (f : Functor A V) (ats : List A) (xs : List V) :
+    f.liftMaybe.fmap ats (xs.map some) = (f.fmap ats xs).map some := by
+  simp [Functor.liftMaybe, allSome_map_some]
+
+/-- a Nothing operand makes the result Nothing -/
+theorem maybe_nothing_propagates (f : Functor A V) (ats : List A) (xs : List (Option V)) (h : none ∈ xs) :
+    f.liftMaybe.fmap ats xs = [none] := by
+  simp [Functor.liftMaybe, allSome_none xs h]
+
+/-- applying a composition to maybe operands commutes with unwrapping: whenever the composition over plain operands yields
+    values, the same composition of the maybe-lifted functors (same attributes, same held operands) over the wrapped operands
+    yields exactly those values, wrapped — any number of functors, any arities, results of inner functors being maybes -/
+theorem maybe_comp_unwrap (fs : List (Fn A V)) (ops vs : List V) (h : applyComp ⟨fs, []⟩ ops = some (.values vs)) :
+    applyComp ⟨fs.map Fn.liftMaybe, []⟩ (ops.map some) = some (.values (vs.map some)) := by
+  simp only [applyComp, List.nil_append] at h ⊢
+  rw [← List.map_reverse]
+  exact run_liftMaybe fs.reverse ops vs h
+
 private def addV : VFun Unit Nat := ⟨2, fun _ xs => match xs with | [a, b] => a + b | _ => 0⟩
 private def mulV : VFun Unit Nat := ⟨2, fun _ xs => match xs with | [a, b] => a * b | _ => 0⟩
 private def negV : VFun Unit Nat := ⟨1, fun _ xs => match xs with | [a] => 1000 - a | _ => 0⟩
@@ -321,6 +344,17 @@ example :
     v.denote env = 15 ∧ vals (applyComp ⟨v.compile, []⟩ (v.operandsOf.map env)) = [15] ∧ v.compile.reverse.map (·.attrs) = [[], [3]] ∧
     w.denote env = 17 ∧ vals (applyComp ⟨w.compile, []⟩ (w.operandsOf.map env)) = [17] ∧ w.compile.reverse.map (·.attrs) = [[7], []] ∧
     u.denote env = 105 ∧ vals (applyComp ⟨u.compile, []⟩ (u.operandsOf.map env)) = [105] ∧ u.opsPost.map (·.2) = [[7], [3]] := by decide
+-- a parametrised unary functor (slope attribute) to the left of a shape-changing functor, over a maybe operand: the attribute
+-- arrives (3 * (2 + 100) = 306, with the default slope 1 it would be 102); a Nothing operand gives Nothing
+example :
+    let act : Functor Nat Nat := ⟨1, fun ats xs => match ats, xs with | [s], [a] => [s * a] | _, [a] => [a] | _, _ => []⟩
+    let rs : Functor Nat Nat := ⟨1, fun _ xs => xs.map (· + 100)⟩
+    let f : Fn Nat Nat := (Fn.ofFunctor act).withAttr 3
+    let g : Fn Nat Nat := .ofFunctor rs
+    (match applyComp ⟨[f, g], []⟩ [2] with | some (.values vs) => vs | _ => []) = [306] ∧
+    (match applyComp ⟨[f, g].map Fn.liftMaybe, []⟩ [some 2] with | some (.values vs) => vs | _ => []) = [some 306] ∧
+    (match applyComp ⟨[f, g].map Fn.liftMaybe, []⟩ [none] with | some (.values vs) => vs | _ => []) = [none] ∧
+    act.liftMaybe.fmap [3] [some 5] = [some 15] ∧ act.liftMaybe.fmap [3] [none] = [none] := by decide
 -- leftLinear_wellFormed on that tree's shape: a left-linear depth-2 tree is well formed
 example :
     let v : View Unit Nat := .node addV [] (.cons (.node mulV [] (.cons (.leaf 0) (.cons (.leaf 1) .nil))) (.cons (.leaf 2) .nil))
